@@ -211,7 +211,13 @@ Definition apply_filter (name : str) (x p : value) : fres :=
       else
         do sep <- str_of p;
         match sep with
-        | [] => do s <- str_of x; okv (VStr s)
+        | [] =>
+            (* the empty separator: a string is itself; any other sequence is joined like with
+               every separator (fix D46; before, the list's Go placeholder text) *)
+            match vv x with
+            | VStr s => okv (VStr s)
+            | _ => do parts <- list_strings (vv x); okv (VStr (join_go [] parts))
+            end
         | _ => do parts <- list_strings (vv x); okv (VStr (join_go sep parts))
         end
     else if is [102;105;108;116;101;114;76;101;110;103;116;104] (* filterLength *) then
